@@ -168,7 +168,9 @@ func buildCorpus(maxSize int) []*corpusEntry {
 
 type mutant struct {
 	Corpus int
-	Kind   string // sub trunc ins del sub2 logsub ovw
+	Kind   string // sub trunc ins del sub2 logsub ovw field cut pad
+	Width  int    `json:",omitempty"` // field: big-endian field of this many bytes at Off set to Value
+	Value  uint64 `json:",omitempty"`
 	Bytes  []byte `json:",omitempty"` // ovw: bytes written over the file starting at Off
 	Off    int
 	Val    byte
@@ -185,6 +187,12 @@ func (m mutant) String() string {
 		return fmt.Sprintf("corpus#%d truncate to %d", m.Corpus, m.Off)
 	case "ovw":
 		return fmt.Sprintf("corpus#%d overwrite @%d with % x repair=%v", m.Corpus, m.Off, m.Bytes, m.Repair)
+	case "field":
+		return fmt.Sprintf("corpus#%d %d-byte big-endian field @%d = %d, CRC repaired", m.Corpus, m.Width, m.Off, m.Value)
+	case "cut":
+		return fmt.Sprintf("corpus#%d bytes [%d, footer) removed, footer kept", m.Corpus, m.Off)
+	case "pad":
+		return fmt.Sprintf("corpus#%d %d zero bytes inserted before the footer", m.Corpus, m.Off)
 	}
 	return fmt.Sprintf("corpus#%d %s @%d=%#02x repair=%v", m.Corpus, m.Kind, m.Off, m.Val, m.Repair)
 }
@@ -236,6 +244,22 @@ func apply(e *corpusEntry, m mutant) []byte {
 			repair(d, src)
 		}
 		return d
+	case "field":
+		d := append([]byte{}, src...)
+		for i := 0; i < m.Width; i++ {
+			d[m.Off+i] = byte(m.Value >> (8 * uint(m.Width-1-i)))
+		}
+		repair(d, src)
+		return d
+	case "cut":
+		_, fs := sizes(src[4])
+		d := append([]byte{}, src[:m.Off]...)
+		return append(d, src[len(src)-fs:]...)
+	case "pad":
+		_, fs := sizes(src[4])
+		d := append([]byte{}, src[:len(src)-fs]...)
+		d = append(d, make([]byte, m.Off)...)
+		return append(d, src[len(src)-fs:]...)
 	case "ins":
 		d := append([]byte{}, src[:m.Off]...)
 		d = append(d, m.Val)
@@ -395,6 +419,51 @@ func enumerate(corpus []*corpusEntry, thorough bool, yield func(m mutant)) {
 				}
 				yield(mutant{Corpus: ci, Kind: "ovw", Off: o, Bytes: pb, Repair: o+len(pb) > n-fs})
 			}
+		}
+		// fixed-width fields set to every interesting position (CRC repaired, header mirrored): the block
+		// size in the header, and the five 8-byte section positions of the footer
+		{
+			fvals := map[uint64]bool{0: true, 1: true, 2: true, 3: true, 4: true, uint64(n): true, uint64(n - fs): true, uint64(n + 1): true, 1<<24 - 1: true, 1 << 16: true}
+			for d := -1; d <= 8; d++ {
+				fvals[uint64(hs+d)] = true
+				fvals[uint64(hs+fs+d)] = true
+			}
+			for _, b := range e.Dec.Blocks {
+				for d := -1; d <= 1; d++ {
+					fvals[uint64(int(b.Off)+d)] = true
+					fvals[uint64(int(b.Off)+int(b.Len)+d)] = true
+				}
+				fvals[uint64(b.Len)] = true
+			}
+			var fl []uint64
+			for v := range fvals {
+				fl = append(fl, v)
+			}
+			sort.Slice(fl, func(i, j int) bool { return fl[i] < fl[j] })
+			for _, v := range fl {
+				if v < 1<<24 {
+					yield(mutant{Corpus: ci, Kind: "field", Off: 5, Width: 3, Value: v, Repair: true})
+				}
+				for k := 0; k < 5; k++ {
+					o := n - fs + hs + 8*k
+					yield(mutant{Corpus: ci, Kind: "field", Off: o, Width: 8, Value: v, Repair: true})
+					if k == 1 { // object section: position << 5 | id length
+						yield(mutant{Corpus: ci, Kind: "field", Off: o, Width: 8, Value: v<<5 | uint64(e.Data[o+7]&31), Repair: true})
+					}
+				}
+			}
+			for _, v := range []uint64{1 << 63, ^uint64(0), 1 << 32, 1<<59 | 5} {
+				for k := 0; k < 5; k++ {
+					yield(mutant{Corpus: ci, Kind: "field", Off: n - fs + hs + 8*k, Width: 8, Value: v, Repair: true})
+				}
+			}
+		}
+		// the table ends early or late but keeps its (valid) footer
+		for k := hs; k < n-fs; k++ {
+			yield(mutant{Corpus: ci, Kind: "cut", Off: k})
+		}
+		for _, k := range []int{1, 2, 3, 4, 24, 64, 68} {
+			yield(mutant{Corpus: ci, Kind: "pad", Off: k})
 		}
 		if e.LogEnd {
 			b := e.Dec.Blocks[len(e.Dec.Blocks)-1]
@@ -846,7 +915,7 @@ func main() {
 	cov["corpus_layouts"] = layouts
 	cov["samples"] = samples
 	cov["exhaustive"] = true
-	cov["rule"] = "corpus = one valid table per distinct layout (versions, padded/unaligned, refs/logs/both, index depths, object index) produced by the real writer; mutants = every offset x value alphabet (all 256 values in the thorough tier) substitution, every truncation, every one-byte insertion/deletion, substitutions inside the inflated payload of a final log block (re-deflated), length-field edits (at every offset: hostile varints of 2-10 bytes and the varint of every block position, of 0 and of the file size), and all pairs of substitutions over structural bytes; CRC repaired and header mirrored when the edit touches header/footer (both variants). Every mutant distinct by construction; non-trivial = all but the unmodified tables"
+	cov["rule"] = "corpus = one valid table per distinct layout (versions, padded/unaligned, refs/logs/both, index depths, object index) produced by the real writer; mutants = every offset x value alphabet (all 256 values in the thorough tier) substitution, every truncation, every one-byte insertion/deletion, substitutions inside the inflated payload of a final log block (re-deflated), length-field edits (at every offset: hostile varints of 2-10 bytes and the varint of every block position, of 0 and of the file size), fixed-width fields (the header's block size, the footer's five section positions) set to every block boundary +-1, header/footer sizes -1..+8, 0..4, the file size and huge values with the CRC repaired, the table cut short at every offset or padded with its footer kept, and all pairs of substitutions over structural bytes; CRC repaired and header mirrored when the edit touches header/footer (both variants). Every mutant distinct by construction; non-trivial = all but the unmodified tables"
 	if *bindRep != "" {
 		if b, err := os.ReadFile(*bindRep); err == nil {
 			var br interface{}
